@@ -204,7 +204,7 @@ structure Store (σ : Type) where
   | (Option.none, s') => (.err .storage, s')
   | (some a, s') => k a s'
 
-/-- nameserver.py:367-371 / 382-385: `for name in self.storage: if <pred>(name): result[name] = self.storage[name]…` -/
+/-- nameserver.py:370-374 / 385-388: `for name in self.storage: if <pred>(name): result[name] = self.storage[name]…` -/
 def collect {σ : Type} (S : Store σ) (pred : Str → Bool) (wm : Bool) : List Str → σ → Res × σ
   | [], s => (.listing [], s)
   | n :: ns, s =>
@@ -218,7 +218,7 @@ def collect {σ : Type} (S : Store σ) (pred : Str → Bool) (wm : Bool) : List 
         | r => r
     else collect S pred wm ns s
 
-/-- `NameServer.list` (nameserver.py:355-388) -/
+/-- `NameServer.list` (nameserver.py:358-391) -/
 def nsList {σ : Type} (S : Store σ) (env : Env) (pfx regex : Option Str) (wm : Bool) (s : σ) : Res × σ :=
   match truthy? pfx, truthy? regex with
   | some _, some _ => (.err .value, s)
@@ -236,7 +236,7 @@ def nsList {σ : Type} (S : Store σ) (env : Env) (pfx regex : Option Str) (wm :
         else (.err .naming, s1)) s
   | Option.none, Option.none => call (S.everything wm) (fun l s1 => (.listing l, s1)) s
 
-/-- the tail of `NameServer.remove` for `prefix=` / `regex=` (nameserver.py:340-351) -/
+/-- the tail of `NameServer.remove` for `prefix=` / `regex=` (nameserver.py:343-354) -/
 def nsRemoveListed {σ : Type} (S : Store σ) (env : Env) (pfx regex : Option Str) (s : σ) : Res × σ :=
   match nsList S env pfx regex false s with
   | (.listing l, s1) =>
@@ -244,7 +244,7 @@ def nsRemoveListed {σ : Type} (S : Store σ) (env : Env) (pfx regex : Option St
     call (S.removeItems items) (fun _ s2 => (.num items.length, s2)) s1
   | r => r
 
-/-- `NameServer.yplookup`, one branch (nameserver.py:399-412 / 413-426) -/
+/-- `NameServer.yplookup`, one branch (nameserver.py:402-415 / 416-429) -/
 def nsYp {σ : Type} (S : Store σ) (all : Bool) (arg : MetaArg) (wm : Bool) (s : σ) : Res × σ :=
   if arg.isStr then (.err .type, s)
   else
@@ -255,7 +255,7 @@ def nsYp {σ : Type} (S : Store σ) (all : Bool) (arg : MetaArg) (wm : Bool) (s 
         call (S.everything true) (fun l s2 =>
           (.listing ((l.filter (if all then hasAll arg.tags else hasAny arg.tags)).map (Entry.strip wm)), s2)) s1) s
 
-/-- The `NameServer` methods (nameserver.py:283-428), statement by statement over the storage interface. -/
+/-- The `NameServer` methods (nameserver.py:284-431; line numbers as of the source with the C14 and C15 fixes), statement by statement over the storage interface. -/
 def nsStep {σ : Type} (S : Store σ) (env : Env) : Op → σ → Res × σ
   | .count, s => call S.len (fun n s1 => (.num n, s1)) s
   | .lookup n wm, s =>
